@@ -311,6 +311,7 @@ Proof.
   destruct sh; try discriminate Hs; cbn [consumer obs_eq].
   - exact I.
   - exact I.
+  - exact I.
   - f_equal. apply collect_ordered_perm_invariant; try assumption.
     + apply bykey_total. + apply bykey_trans. + apply (bykey_antisym fst); exact HN.
   - f_equal. apply sort_perm_invariant; try assumption.
